@@ -259,7 +259,7 @@ func (c *Cluster) WaitLeader(d time.Duration) *Node {
 }
 
 // Quiesce decides the logical condition "no client operation in flight (caller's duty) and every
-// live node has applied everything the leader committed": a raft Barrier on the leader makes the
+// live node has applied AND PERSISTED everything the leader committed": a raft Barrier on the leader makes the
 // leader's FSM apply all preceding entries, then every live node must report the leader's last
 // index as applied AND the leader's version, on two consecutive polls. Returns false when the
 // watchdog fires; LastQuiesceState then says what was still different.
@@ -292,8 +292,9 @@ func (c *Cluster) Quiesce(d time.Duration) bool {
 				continue
 			}
 			a, v := n.Applied(), n.Version()
-			sig += fmt.Sprintf("%s:applied=%d/last=%d/version=%d ", id, a, n.LastIndex(), v)
-			if a != li || n.LastIndex() != li || v != lv {
+			_, fv := n.N.VerifFSMState() // set after the store write of the last applied insertion
+			sig += fmt.Sprintf("%s:applied=%d/last=%d/version=%d/persisted=%d ", id, a, n.LastIndex(), v, fv+1)
+			if a != li || n.LastIndex() != li || v != lv || (v > 0 && fv+1 != v) {
 				ok = false
 			}
 		}
